@@ -95,7 +95,8 @@ def _blocks(blocks, c: _Ctx, listlevel=None, in_cell=False) -> str:
     for b in blocks:
         t = b[0]
         if t == "p":
-            out.append(_para(b[1], c, style="ListParagraph" if listlevel is not None else None,
+            style = b[2]["style"] if len(b) > 2 and isinstance(b[2], dict) and b[2].get("style") else None
+            out.append(_para(b[1], c, style=style or ("ListParagraph" if listlevel is not None else None),
                              numlevel=listlevel))
         elif t == "h":
             out.append(_para(b[2], c, style=f"Heading{b[1]}"))
